@@ -86,6 +86,8 @@ PURE_METHODS = {
     "range": set(),
 }
 NONSTRICT_ERRORS = {"surrogateescape", "replace", "ignore", "backslashreplace", "xmlcharrefreplace", "namereplace", "surrogatepass"}
+TOTAL_DECODE_ERRORS = {"surrogateescape", "replace", "ignore", "backslashreplace"}
+TOTAL_ENCODE_ERRORS = {"replace", "ignore", "backslashreplace", "xmlcharrefreplace", "namereplace"}
 
 
 MAXSIZE = 2 ** 63 - 1       # sys.maxsize on the 64-bit CPython this library targets (assumption recorded in the evidence)
@@ -1342,9 +1344,22 @@ class MayRaise:
                 for k in e.keywords:
                     if k.arg == "errors":
                         err = k.value
-                lenient = isinstance(err, ast.Constant) and err.value in NONSTRICT_ERRORS
+                # which error handlers make the call total depends on the direction: "surrogateescape" decodes anything but
+                # encodes only U+DC80..U+DCFF (any other lone surrogate still raises); "surrogatepass" encodes every str to
+                # UTF-8 but decodes only what it produced; the two *replace handlers for references are encode-only
+                total = TOTAL_DECODE_ERRORS if meth == "decode" else TOTAL_ENCODE_ERRORS
+                lenient = isinstance(err, ast.Constant) and err.value in total
+                codec = e.args[0] if e.args else next((k.value for k in e.keywords if k.arg == "encoding"), None)
+                if not lenient and meth == "encode" and isinstance(err, ast.Constant) and err.value == "surrogatepass" and \
+                        (codec is None or (isinstance(codec, ast.Constant) and str(codec.value).lower().replace("_", "-") in ("utf-8", "utf8"))):
+                    lenient = True
                 exc = "UnicodeDecodeError" if meth == "decode" else "UnicodeEncodeError"
-                add(f"{meth}", exc, lenient, "strict codec may fail on this input" if not lenient else f"errors={err.value!r}")
+                why = f"errors={err.value!r}" if lenient else "strict codec may fail on this input"
+                if not lenient and isinstance(err, ast.Constant) and err.value in NONSTRICT_ERRORS:
+                    why = (f"errors={err.value!r} does not make {meth}() total: " +
+                           ("it encodes only the surrogates U+DC80..U+DCFF, any other lone surrogate raises" if err.value == "surrogateescape" else
+                            "the handler does not cover every input in this direction"))
+                add(f"{meth}", exc, lenient, why)
                 return out
             if base == "pattern" and meth == "sub" and e.args:
                 out |= self.callback_escapes(e.args[0], ctx, e)
